@@ -1332,7 +1332,11 @@ def main(tier, seed):
     proof = prove(PROP)
     rng = rng_for(PROP, seed)
     cov, _ = explore(tier, seed, rng, wd, violations)
-    violations = [v for v in violations if not any(vlib._match_one(p, v.get("rec", {})) for p in PENDING_FINDINGS)]
+    pending = [v for v in violations if any(vlib._match_one(p, v.get("rec", {})) for p in PENDING_FINDINGS)]
+    violations = [v for v in violations if v not in pending]
+    cov["pending_findings"] = sorted({v["what"] for v in pending})
+    for w in cov["pending_findings"]:
+        print(f"PENDING-FINDING: property={PROP} {w}")
     return finish(PROP, tier, seed, t0, proof, cov, violations, ASSUME)
 
 
